@@ -59,6 +59,9 @@ UNITS = {
 def enum_discr_value(eng, e):
     if e.ty == "Ordering":
         return e.variant - 1  # Less=-1, Equal=0, Greater=1 (variant index 0,1,2)
+    ds = eng.mir.enum_discr.get(e.ty)
+    if ds is not None:
+        return ds[e.variant]
     return e.variant
 
 
@@ -223,6 +226,15 @@ def dispatch(eng, st, body, callee, args):
         return _o(st, fmax(eng, a, b) if meth == "max" else fmin(eng, a, b))
     if Tr == "Sum" and meth == "sum":
         return iter_fold_sum(eng, st, args[0])
+    # generic `T: PartialOrd` etc. inside un-monomorphised bodies: decide by the run-time values
+    if Tr in ("PartialOrd", "PartialEq") and meth in CMP and len(args) == 2:
+        a, b = num2(eng, st, args)
+        if is_scalar(a) and is_scalar(b):
+            return _o(st, eng.binop(st, CMP[meth], a, b))
+    if Tr in ("Add", "Sub", "Mul", "Div") and meth in ARITH and len(args) == 2:
+        a, b = num2(eng, st, args)
+        if is_scalar(a) and is_scalar(b):
+            return _o(st, eng.binop(st, ARITH[meth], a, b))
 
     # ---- uom quantity <-> f64
     if T is not None and T.startswith("impl:") and meth in ("get", "new") and Tr is not None and gen is not None and T == "impl:Quantity":
